@@ -523,6 +523,344 @@ fn mem_strategy() -> impl Strategy<Value = MemCase> {
         })
 }
 
+// ---------------------------------------------------------------------------------------------
+// VerifierManifest::matches — the caller-side statement of "the expected table set"
+// ---------------------------------------------------------------------------------------------
+
+#[derive(Clone, Debug, Serialize, Deserialize, Hash, PartialEq, Eq)]
+pub struct NpoMeta {
+    /// index into MAN_TABLES
+    pub table: u8,
+    pub optimized: bool,
+    pub pv_len: u8,
+}
+
+/// The manifest's view: 0 base, 1 binomial W, 2 binomial W+1, 3 quintic trinomial.
+#[derive(Clone, Debug, Serialize, Deserialize, Hash, PartialEq, Eq)]
+pub struct ManMeta {
+    pub ext_degree: u8,
+    pub reduction: u8,
+    pub alu_optimized: bool,
+    pub npo: Vec<NpoMeta>,
+}
+
+#[derive(Clone, Debug, Serialize, Deserialize, Hash, PartialEq, Eq)]
+pub enum MEdit {
+    ExtDegree(u8),
+    /// proof.w_binomial: 0 None, 1 Some(W), 2 Some(W+1)
+    W(u8),
+    Quintic,
+    AluVariant,
+    Drop(u16),
+    /// append a copy of entry i
+    DupAppend(u16),
+    Append(NpoMeta),
+    Insert(u16, NpoMeta),
+    Table(u16, u8),
+    Variant(u16),
+    PvLen(u16, u8),
+    Swap(u16, u16),
+}
+
+#[derive(Clone, Debug, Serialize, Deserialize, Hash)]
+pub struct ManCase {
+    pub prog: Prog,
+    pub manifest: ManMeta,
+    /// applied to the proof's metadata, which starts out equal to the manifest
+    pub edits: Vec<MEdit>,
+}
+
+const MAN_TABLES: [&str; 5] = ["recompose", "recompose/coeff", "poseidon2_perm/koala_bear_d4_w16", "poseidon1_perm/baby_bear_d4_w16", "unknown/table"];
+
+pub const RULE_MAN: &str = "VerifierManifest::matches(proof) on a real BatchStarkProof whose self-declared metadata is overwritten: the manifest is generated (ext_degree, reduction base/binomial W/binomial W+1/quintic, ALU variant, 0-3 expected tables with op type, AIR variant, public-value length), the proof's metadata starts equal to it and receives 0-3 edits (ext_degree, w_binomial, quintic flag, ALU variant; drop/append/insert/duplicate/swap of table entries; op type, variant, public-value length of one entry). Oracle: a field-by-field reference comparison (lists compared by length and element-wise) -- Ok iff equal; no panic. Non-trivial = at least one effective edit; distinct on (edit kinds, expected verdict, list lengths)";
+
+#[derive(Clone, Debug, PartialEq, Eq)]
+struct ProofMeta {
+    ext_degree: u8,
+    w: u8,
+    quintic: bool,
+    alu_optimized: bool,
+    npo: Vec<NpoMeta>,
+}
+
+fn proof_meta_of(c: &ManCase) -> (ProofMeta, Vec<&'static str>) {
+    let (w, quintic) = match c.manifest.reduction % 4 {
+        0 => (0, false),
+        1 => (1, false),
+        2 => (2, false),
+        _ => (0, true),
+    };
+    let mut m = ProofMeta {
+        ext_degree: c.manifest.ext_degree,
+        w,
+        quintic,
+        alu_optimized: c.manifest.alu_optimized,
+        npo: c.manifest.npo.clone(),
+    };
+    let mut kinds = vec![];
+    for e in &c.edits {
+        let before = m.clone();
+        let kind = match e {
+            MEdit::ExtDegree(d) => {
+                m.ext_degree = *d;
+                "ext_degree"
+            }
+            MEdit::W(w) => {
+                m.w = *w % 3;
+                "w_binomial"
+            }
+            MEdit::Quintic => {
+                m.quintic = !m.quintic;
+                "quintic"
+            }
+            MEdit::AluVariant => {
+                m.alu_optimized = !m.alu_optimized;
+                "alu_variant"
+            }
+            MEdit::Drop(i) => {
+                if !m.npo.is_empty() {
+                    let i = pick(*i, m.npo.len());
+                    m.npo.remove(i);
+                }
+                "drop"
+            }
+            MEdit::DupAppend(i) => {
+                if !m.npo.is_empty() {
+                    let i = pick(*i, m.npo.len());
+                    let x = m.npo[i].clone();
+                    m.npo.push(x);
+                }
+                "dup-append"
+            }
+            MEdit::Append(x) => {
+                m.npo.push(x.clone());
+                "append"
+            }
+            MEdit::Insert(i, x) => {
+                let i = pick(*i, m.npo.len() + 1);
+                m.npo.insert(i, x.clone());
+                "insert"
+            }
+            MEdit::Table(i, t) => {
+                if !m.npo.is_empty() {
+                    let i = pick(*i, m.npo.len());
+                    m.npo[i].table = *t;
+                }
+                "op_type"
+            }
+            MEdit::Variant(i) => {
+                if !m.npo.is_empty() {
+                    let i = pick(*i, m.npo.len());
+                    m.npo[i].optimized = !m.npo[i].optimized;
+                }
+                "air_variant"
+            }
+            MEdit::PvLen(i, l) => {
+                if !m.npo.is_empty() {
+                    let i = pick(*i, m.npo.len());
+                    m.npo[i].pv_len = *l;
+                }
+                "pv_len"
+            }
+            MEdit::Swap(i, j) => {
+                if m.npo.len() >= 2 {
+                    let (i, j) = (pick(*i, m.npo.len()), pick(*j, m.npo.len()));
+                    m.npo.swap(i, j);
+                }
+                "swap"
+            }
+        };
+        if m != before {
+            kinds.push(kind);
+        }
+    }
+    (m, kinds)
+}
+
+fn man_table(t: u8) -> &'static str {
+    MAN_TABLES[t as usize % MAN_TABLES.len()]
+}
+
+/// Reference comparison, written from the documentation of `VerifierManifest`.
+fn model_matches(man: &ManMeta, p: &ProofMeta) -> bool {
+    let (w, quintic) = match man.reduction % 4 {
+        0 => (0, false),
+        1 => (1, false),
+        2 => (2, false),
+        _ => (0, true),
+    };
+    man.ext_degree == p.ext_degree
+        && w == p.w
+        && quintic == p.quintic
+        && man.alu_optimized == p.alu_optimized
+        && man.npo.len() == p.npo.len()
+        && man.npo.iter().zip(&p.npo).all(|(a, b)| {
+            man_table(a.table) == man_table(b.table) && a.optimized == b.optimized && a.pv_len == b.pv_len
+        })
+}
+
+fn honest_proof_bytes<C: Pv>(prog: &Prog) -> Option<Vec<u8>> {
+    static CACHE: std::sync::Mutex<Vec<(String, Vec<u8>)>> = std::sync::Mutex::new(Vec::new());
+    if let Some((_, b)) = CACHE.lock().unwrap().iter().find(|(n, _)| n == C::NAME) {
+        return Some(b.clone());
+    }
+    let built: Built<C> = e1::interpret::<C>(prog, e1::Excl::ALL_SAT);
+    let Built { builder, publics, privates, .. } = built;
+    let circuit = builder.build().ok()?;
+    if !e1::horner_shape_ok(&circuit) {
+        return None;
+    }
+    let mut runner = circuit.runner();
+    runner.set_public_inputs(&publics).and_then(|_| runner.set_private_inputs(&privates)).ok()?;
+    let traces = runner.run().ok()?;
+    let pk = packing(&C10Case {
+        prog: Prog { field: 0, recompose_npo: false, stmts: vec![] },
+        public_lanes: 0,
+        alu_lanes: 0,
+        horner_k: 0,
+        log_min_height: 0,
+    });
+    let npo = NpoSel { recompose: prog.recompose_npo, debug_lookups: false, poseidon2: None, poseidon1: None };
+    let setup = C::setup(&circuit, &pk, &npo).ok()?;
+    let proof = C::prove(&setup, &traces).ok()?;
+    let bytes = C::proof_to_postcard(&proof);
+    let mut c = CACHE.lock().unwrap();
+    if !c.iter().any(|(n, _)| n == C::NAME) {
+        c.push((C::NAME.to_string(), bytes.clone()));
+    }
+    Some(bytes)
+}
+
+fn check_man<C: Pv>(c: &ManCase) -> Report {
+    use p3_batch_stark::Val;
+    use p3_circuit::ops::NpoTypeId;
+    use p3_circuit_prover::air::AluExtMulKind;
+    use p3_circuit_prover::batch_stark_prover::{AirVariant, NonPrimitiveTableEntry};
+    use p3_circuit_prover::manifest::{ExpectedNpoEntry, VerifierManifest};
+    use p3_field::PrimeCharacteristicRing;
+    let Some(bytes) = honest_proof_bytes::<C>(&c.prog) else {
+        return Report::discard("no honest proof for this field yet");
+    };
+    let Ok(mut proof) = C::proof_from_postcard(&bytes) else {
+        return Report::fail("C16/serde-roundtrip-failed:postcard", "cached honest proof does not deserialise".to_string());
+    };
+    let w0: Val<C::SC> = proof.w_binomial.unwrap_or(<Val<C::SC>>::TWO);
+    let w_of = |k: u8| if k == 1 { w0 } else { w0 + <Val<C::SC>>::ONE };
+    let variant = |o: bool| if o { AirVariant::Optimized } else { AirVariant::Baseline };
+    let (pm, kinds) = proof_meta_of(c);
+    // the real manifest
+    let manifest = VerifierManifest::<Val<C::SC>> {
+        ext_degree: c.manifest.ext_degree as usize,
+        reduction: match c.manifest.reduction % 4 {
+            0 => AluExtMulKind::Base,
+            1 => AluExtMulKind::Binomial { w: w_of(1) },
+            2 => AluExtMulKind::Binomial { w: w_of(2) },
+            _ => AluExtMulKind::QuinticTrinomial,
+        },
+        alu_variant: variant(c.manifest.alu_optimized),
+        expected_npo: c
+            .manifest
+            .npo
+            .iter()
+            .map(|e| ExpectedNpoEntry {
+                op_type: NpoTypeId::new(man_table(e.table)),
+                air_variant: variant(e.optimized),
+                public_values_len: e.pv_len as usize,
+            })
+            .collect(),
+    };
+    // the proof's self-declared metadata
+    proof.ext_degree = pm.ext_degree as usize;
+    proof.w_binomial = match pm.w {
+        0 => None,
+        k => Some(w_of(k)),
+    };
+    proof.alu_quintic_trinomial = pm.quintic;
+    proof.alu_variant = variant(pm.alu_optimized);
+    proof.non_primitives = pm
+        .npo
+        .iter()
+        .map(|e| NonPrimitiveTableEntry::<C::SC> {
+            op_type: NpoTypeId::new(man_table(e.table)),
+            rows: 1,
+            lanes: 1,
+            public_values: vec![<Val<C::SC>>::ONE; e.pv_len as usize],
+            air_variant: variant(e.optimized),
+        })
+        .collect();
+    let expect_ok = model_matches(&c.manifest, &pm);
+    let mut ks = kinds.clone();
+    ks.sort();
+    ks.dedup();
+    let mut rep = Report::pass()
+        .class(format!("field:{}", C::NAME))
+        .class(if expect_ok { "expected:match" } else { "expected:mismatch" })
+        .class(format!("lens:{}vs{}", c.manifest.npo.len().min(3), pm.npo.len().min(4)))
+        .nontrivial(!kinds.is_empty())
+        .key(hash_of(&(&ks, expect_ok, c.manifest.npo.len(), pm.npo.len())));
+    for k in &ks {
+        rep = rep.class(format!("edit:{k}"));
+    }
+    let got = match catch(|| manifest.matches::<C::SC>(&proof).map_err(|e| format!("{e:?}"))) {
+        Ok(r) => r,
+        Err(m) => return fail(rep, "C16/manifest-matches-panic", m.chars().take(300).collect()),
+    };
+    match (expect_ok, got) {
+        (true, Ok(())) => rep.class("outcome:accepted-as-expected"),
+        (false, Err(_)) => rep.class("outcome:rejected-as-expected"),
+        (false, Ok(())) => {
+            let what = ks.join("+");
+            fail(
+                rep,
+                &format!("C16/manifest-accepts-contradicting-metadata:{what}"),
+                format!("manifest {:?} accepts proof metadata {pm:?}", c.manifest),
+            )
+        }
+        (true, Err(e)) => fail(rep, "C16/manifest-rejects-matching-metadata", format!("manifest {:?} rejects equal proof metadata {pm:?}: {e}", c.manifest)),
+    }
+}
+
+pub fn oracle_man(c: &ManCase) -> Report {
+    dispatch_field!(c.prog.field as usize, C => check_man::<C>(c))
+}
+
+fn man_strategy() -> impl Strategy<Value = ManCase> {
+    fn npo() -> impl Strategy<Value = NpoMeta> {
+        (0u8..5, any::<bool>(), 0u8..3).prop_map(|(table, optimized, pv_len)| NpoMeta { table, optimized, pv_len })
+    }
+    let edit = prop_oneof![
+        1 => prop_oneof![Just(1u8), Just(4), Just(5), Just(2)].prop_map(MEdit::ExtDegree),
+        1 => (0u8..3).prop_map(MEdit::W),
+        1 => Just(MEdit::Quintic),
+        1 => Just(MEdit::AluVariant),
+        2 => any::<u16>().prop_map(MEdit::Drop),
+        2 => any::<u16>().prop_map(MEdit::DupAppend),
+        2 => npo().prop_map(MEdit::Append),
+        1 => (any::<u16>(), npo()).prop_map(|(i, x)| MEdit::Insert(i, x)),
+        1 => (any::<u16>(), 0u8..5).prop_map(|(i, t)| MEdit::Table(i, t)),
+        1 => any::<u16>().prop_map(MEdit::Variant),
+        1 => (any::<u16>(), 0u8..3).prop_map(|(i, l)| MEdit::PvLen(i, l)),
+        1 => (any::<u16>(), any::<u16>()).prop_map(|(i, j)| MEdit::Swap(i, j)),
+    ];
+    (
+        e1::prog_strategy(GenOpts {
+            violating: false,
+            free_connect: false,
+            max_len: 4,
+            free_horner_weight: 0,
+            fields: vec![0, 1, 3, 4, 6],
+            ..GenOpts::default()
+        }),
+        (prop_oneof![Just(1u8), Just(4), Just(5), Just(2)], 0u8..4, any::<bool>(), proptest::collection::vec(npo(), 0..4)),
+        proptest::collection::vec(edit, 0..4),
+    )
+        .prop_map(|(prog, (ext_degree, reduction, alu_optimized, npo), edits)| ManCase {
+            prog,
+            manifest: ManMeta { ext_degree, reduction, alu_optimized, npo },
+            edits,
+        })
+}
+
 fn fail(mut rep: Report, sig: &str, msg: String) -> Report {
     rep.verdict = Verdict::Fail {
         sig: sig.to_string(),
@@ -583,4 +921,6 @@ pub fn run(ctx: &Ctx) {
     ctx.replay_known("metadata", |c: &Case| e1::without_exclusions(|| oracle(c)));
     let n = ctx.tier.pick(1500, 60_000);
     ctx.explore("in-memory-lookups", RULE_MEM, n, mem_strategy, oracle_mem);
+    let n = ctx.tier.pick(20_000, 2_000_000);
+    ctx.explore("manifest-matches", RULE_MAN, n, man_strategy, oracle_man);
 }
